@@ -67,10 +67,12 @@ Proof. exact c01_collection_of_class_pf. Qed.
 Print Assumptions C01_collection_of_class.
 
 (* CGEM cluster collection through the mirror of Bes3CgemClusterColReader::read, both class versions (cv = 0: with
-   m_recPositionY, 96 bytes; cv = 1: without, 88 bytes), any counts, referenced bits anywhere EXCEPT on the first object
-   of the basket, from whose byte count the sticky version flag is derived (see C01_cgem_first_referenced_refuted) *)
+   m_recPositionY; cv = 1: without), any counts (empty events anywhere), any object-header variant, and ANY fBits on ANY
+   object — in particular on the first object of the basket, from whose byte count (96 / 98 with pidf for version 0,
+   88 / 90 for version 1) the sticky version flag is derived.  cgev_ok only asks for representable field values
+   (tobject_wf allows every fBits; pidf is present iff kIsReferenced) and that all clusters have the file's class version *)
 Theorem C01_cgem_roundtrip : forall (cv : Z) (evs : list (objhdr * colhdr * list (objhdr * (Z * tobject * cgem)))),
-  Forall (cgev_ok cv) evs -> start_ok cv (-1) (concat (map cgev_objs evs)) ->
+  Forall (cgev_ok cv) evs ->
   fold_right Z.add 0 (map (fun ev => zlen (cgev_objs ev)) evs) < 4294967296 ->
   let stored := map cgem_event_enc evs in
   let clusters := map (fun ev => map cg_of (cgev_objs ev)) evs in
@@ -81,13 +83,21 @@ Theorem C01_cgem_roundtrip : forall (cv : Z) (evs : list (objhdr * colhdr * list
 Proof. exact c01_cgem_roundtrip_pf. Qed.
 Print Assumptions C01_cgem_roundtrip.
 
-(* the guard of C01_cgem_roundtrip is the exact one the code needs: a well-formed version-0 cluster whose TObject carries
-   kIsReferenced (pidf present, fNBytes = 98) as the first object of a basket makes the reader throw *)
-Theorem C01_cgem_first_referenced_refuted :
-  Forall (cgev_ok 0) cg_referenced_first /\
-  cgem_branch (concat (map cgem_event_enc cg_referenced_first)) (0 :: prefix_sums 0 (map zlen (map cgem_event_enc cg_referenced_first))) = None.
-Proof. exact c01_cgem_first_referenced_refuted_pf. Qed.
-Print Assumptions C01_cgem_first_referenced_refuted.
+(* the version flag is determined by the first stored cluster whatever its fBits are *)
+Theorem C01_cgem_first_object_any_bits : forall (cv : Z) (x : objhdr * (Z * tobject * cgem)) (rest : bytes),
+  cgobj_ok cv x -> cgem_obj_read (-1) (cgem_obj_enc x ++ rest) = Some ((cv, cg_of x), rest).
+Proof. exact c01_cgem_first_object_any_bits_pf. Qed.
+Print Assumptions C01_cgem_first_object_any_bits.
+
+(* the stream the reader used to throw on (first cluster of the basket referenced, fNBytes = 98) now decodes, and so does its
+   version-1 sibling (empty first event, then fNBytes = 90 followed by an unreferenced 88-byte cluster) *)
+Example C01_ex_cgem_referenced_first :
+  (Forall (cgev_ok 0) cg_referenced_first /\ Forall (cgev_ok 1) cg_referenced_first_v1) /\
+  cgem_branch (concat (map cgem_event_enc cg_referenced_first)) (0 :: prefix_sums 0 (map zlen (map cgem_event_enc cg_referenced_first)))
+    = Some ((0, [0; 1]), [cg_sample]) /\
+  cgem_branch (concat (map cgem_event_enc cg_referenced_first_v1)) (0 :: prefix_sums 0 (map zlen (map cgem_event_enc cg_referenced_first_v1)))
+    = Some ((1, [0; 0; 2]), [cg_sample1; cg_sample1]).
+Proof. exact c01_ex_cgem_referenced_first_pf. Qed.
 
 (* digi collections: the members of the raw-data base appear at top level in place of the base, with the same values and
    in the same order; every other member is kept; none is lost or duplicated.  The only side condition is the absence of
